@@ -403,7 +403,8 @@ func verifySign1[P any](wire []byte, pub crypto.PublicKey, payload *P, aad []byt
 }
 
 // verifyMac0 compares the tag the way the callers of the library do (kex/crypter.go Decrypt):
-// decode, remember Value, recompute with Digest under the expected algorithm and key, bytes.Equal.
+// decode, require the algorithm header to be the expected one, remember Value, recompute with
+// Digest under the expected algorithm and key, bytes.Equal.
 func verifyMac0[P any](wire []byte, alg cose.MacAlgorithm, key []byte, payload *P, aad []byte) (o outcome) {
 	defer func() {
 		if r := recover(); r != nil {
@@ -413,6 +414,10 @@ func verifyMac0[P any](wire []byte, alg cose.MacAlgorithm, key []byte, payload *
 	var t cose.Mac0Tag[P, []byte]
 	if err := cbor.Unmarshal(wire, &t); err != nil {
 		return outcome{"decode-error", err.Error()}
+	}
+	var hdrAlg cose.MacAlgorithm
+	if ok, err := t.Protected.Parse(cose.AlgLabel, &hdrAlg); err != nil || !ok || hdrAlg != alg {
+		return outcome{"error", "algorithm header does not match the expected algorithm"}
 	}
 	expected := t.Value
 	if err := t.Digest(alg, key, payload, aad); err != nil {
